@@ -98,13 +98,15 @@ def gen_cases(tier, seed):
     def blk(D, Ns, Bs, Ss):
         for N in itertools.product(Ns, repeat=D):
             for B in itertools.product(Bs, repeat=D):
-                if any(b > n for b, n in zip(B, N)):
-                    continue
                 for S in itertools.product(Ss, repeat=D):
+                    # a block longer than its axis: no window fits, the documented count (N - B + S) // S is 0 as long
+                    # as B <= N + S (beyond that the formula goes negative and the call is outside the documentation)
+                    if any(b > n + s_ for b, n, s_ in zip(B, N, S)):
+                        continue
                     for batch in ([], [2]):
                         cases.append(dict(kind="blocks", N=list(N), B=list(B), S=list(S), batch=batch))
-    blk(1, range(1, 8), (1, 2, 3), (1, 2, 3))
-    blk(2, (2, 3, 4, 5) if T else (3, 4, 5), (1, 2, 3), (1, 2, 3))
+    blk(1, range(1, 8), (1, 2, 3, 4, 5), (1, 2, 3))
+    blk(2, (2, 3, 4, 5) if T else (2, 3, 4, 5), (1, 2, 3), (1, 2, 3))
     blk(3, (2, 3, 4) if T else (3, 4), (1, 2), (1, 2, 3) if T else (1, 2))
     return cases
 
@@ -268,6 +270,10 @@ def run_case(case, seed):
                 (im.gather_matrix(src, dense.prod(ish)).T @ yl.ravel()).reshape(ish))
         if not np.array_equal(x, x0):
             viol.append(dict(oracle="input-mutated", key=dict(site="block.array_to_blocks", when=when), detail=""))
+        if ref.size == 0:
+            # no window fits: the functions return an empty block array / zeros (checked above); an operator with an empty
+            # side cannot be built ("Shapes must be positive"), a loud refusal
+            return dict(states=1, transitions=trans + 2, nontrivial=False, outcome="ok:no-block-fits", viol=viol)
         A = sp.linop.ArrayToBlocks(ish, B, S)
         if list(A.oshape) != list(ref.shape):
             viol.append(dict(oracle="shape", key=dict(site="linop.ArrayToBlocks", when=when),
